@@ -10,7 +10,7 @@ from . import builtin, regenerate
 from .. import path as _path
 from ..exceptions import SerializationError
 from ..glob import NameGlob, PathGlob
-from ..iterutils import iterate, listify
+from ..iterutils import iterate, listify, uniques
 from ..backends.make import writer as make
 from ..backends.ninja import writer as ninja
 from ..backends.make.syntax import Writer, Syntax
@@ -333,6 +333,16 @@ def find_paths(context, *args, **kwargs):
     return [i.path for i in context['find_files'](*args, **kwargs)]
 
 
+def _update_depfile(env, regen_files, seen_dirs):
+    if env.backend == 'make':
+        target = make.filepath
+        if len(regen_files.outputs) > 1:
+            target = target.addext('.stamp')
+        write_depfile(env, Path(depfile_name), target, seen_dirs, makeify=True)
+    elif env.backend == 'ninja':
+        write_depfile(env, Path(depfile_name), ninja.filepath, seen_dirs)
+
+
 @builtin.pre_execute_hook()
 def find_check_cache(context):
     if context.regenerating is not Regenerating.lazy:
@@ -365,6 +375,7 @@ def find_check_cache(context):
     # Otherwise, check to see if any of the `find_files` calls have different
     # results. If not, we can avoid regenerating.
     regenerate = False
+    all_dirs = []
 
     for file_filter, results in old_cache.items():
         found, extra, seen_dirs = [], [], []
@@ -374,6 +385,7 @@ def find_check_cache(context):
             elif matched == FindResult.not_now:
                 extra.append(path)
 
+        all_dirs.extend(seen_dirs)
         regenerate = regenerate or results[0] != found or results[1] != extra
         # Note: don't fill in the find cache with these results. If we do end
         # up regenerating, `find_files` needs to create the objects for the
@@ -381,8 +393,13 @@ def find_check_cache(context):
         # so that they're added to the source distribution.
 
     if not regenerate:
-        # We don't want to regenerate. To make sure the build backend is happy,
-        # update the modification time of all the output files.
+        # We don't want to regenerate. However, the set of directories we
+        # searched may have changed even if the results didn't (e.g. a new,
+        # empty subdirectory), so make sure the backend watches all of them.
+        _update_depfile(context.env, regen_files, uniques(all_dirs))
+
+        # To make sure the build backend is happy, update the modification time
+        # of all the output files.
         for i in regen_files.outputs:
             if _path.exists(i, context.env.base_dirs):
                 _path.touch(i, context.env.base_dirs)
